@@ -1,21 +1,48 @@
 import QuiverModel.Core.RefSem.Compile0
 /-
-M-RefSem ↔ M-VM, fragment compiler with LOCALS AND BINDINGS (`compile1`), C02 stretch goal part 3.
+M-RefSem ↔ M-VM, fragment compiler with LOCALS, BINDINGS AND SIMPLE MATCH PATTERNS (`compile1`),
+C02 stretch goal part 3.
 
 Adds to the value-flow fragment of Compile0.lean:
   * reading a (non-callable) variable `x`      → `Pop, Load(slot)`            (compile_access_inner, Identifier)
-  * the binder match `=x` (and `x = e`, which is `e =x`) → compile_match's template for a single binder:
-        Jump(1), Jump(5), Duplicate, Store, Pop, Tuple(OK), Jump(4), Tuple(NIL), Store, Pop, Tuple(NIL)
-    (start jump, fail jump, the binding's value access + Store, the verdict `Ok`, jump over the failure
-     path — which nil-fills one local per binding and yields nil; a bare binder never takes it).
+  * the in-chain match `=p` (and `x = e`, which is `e =x`) for the simple pattern forms
+        binder `x`, placeholder `_`, integer literal, flat tuple destructuring `[p₀, …]` / `A[p₀, …]`
+        (sub-patterns binder / placeholder / literal) of a value whose static type is that tuple type
+    → compile_match's template:
+        Jump(1)                    start
+        Jump(→ failure path)       the "fail jump": every failing test jumps BACK to it
+        tests   (per literal:   Duplicate, [Get(k),] Constant(c), Equal(2), Not, JumpIf(→ fail jump))
+        bindings(per binder:    Duplicate, [Get(k),] Store)            — in field order, after ALL tests
+        Pop, Tuple(OK), Jump(over the failure path)
+        failure path: (Tuple(NIL), Store) × #bindings, Pop, Tuple(NIL)  — the nil fill
 
 Compile-time state: `Γ`, the names of the frame's locals in slot order (`local_count = Γ.length`, a new
 binding takes the next slot, a name resolves to its LAST slot = innermost binding). Run time: the
-frame-relative locals `L`. The **alignment invariant** `L.length = Γ.length` (compile-time slot numbering =
-run-time Store order) is what makes `Load(slot Γ x)` read the value bound to `x`.
+frame-relative locals `L`.
+
+The **alignment invariant** `L.length = Γ.length` (compile-time slot numbering = run-time Store order, on
+EVERY path: the failure path stores one nil per binding precisely to keep it) is what makes
+`Load(slot Γ x)` read the value bound to `x`; it is part of every correctness statement in
+Theorems/C02Loc.lean.
+
+The meaning functions are partial (`Option`): `none` = the fragment's typing assumption is violated (a
+tuple pattern applied to something that is not a tuple of that width, a read of a name that has no
+slot) — the compiler only emits this code for well-typed programs.
 -/
 namespace QM.RefSem.C1
 open QM.VM
+
+/-- sub-pattern / top-level simple pattern -/
+inductive Sub where
+  | bind (x : String)
+  | wild
+  | lit (z : Int) (cidx : Nat)
+
+inductive Pat1 where
+  /-- `=x`, `=_`, `=5` -/
+  | top (s : Sub)
+  /-- `=[p₀, …, pₙ₋₁]` (any tuple name: the static type is exactly the pattern's, no `IsType`) -/
+  | tup (subs : List Sub)
 
 mutual
   inductive T1 where
@@ -24,8 +51,8 @@ mutual
     | tup (id : Nat) (fields : Fs1)
     /-- read the variable `x` (it replaces the flowing value) -/
     | var (x : String)
-    /-- `=x` -/
-    | bind (x : String)
+    /-- `=p` -/
+    | mtch (p : Pat1)
   inductive Ch1 where
     | nil
     | cons (t : T1) (rest : Ch1)
@@ -50,9 +77,55 @@ def slot : List String → String → Option Nat
     | some i => some (i + 1)
     | none => if x = y then some 0 else none
 
-/-- compile_match for a bare binder -/
-def bindCode : List Instr :=
-  [.jump 1, .jump 5, .duplicate, .store, .pop, .tuple 1, .jump 4, .tuple 0, .store, .pop, .tuple 0]
+/-! ### compile_match for the simple patterns -/
+
+def subBinds : Sub → List String
+  | .bind x => [x]
+  | _ => []
+
+def subsBinds : List Sub → List String
+  | [] => []
+  | s :: r => subBinds s ++ subsBinds r
+
+def patBinds : Pat1 → List String
+  | .top s => subBinds s
+  | .tup subs => subsBinds subs
+
+/-- test of a top-level literal; `q` = position of its first instruction in the template (the fail
+jump is at position 1) -/
+def testTop : Sub → Nat → List Instr
+  | .lit _ c, q => [.duplicate, .constant c, .equal 2, .not, .jumpIf (-((q + 4 : Nat) : Int))]
+  | _, _ => []
+
+def bindTop : Sub → List Instr
+  | .bind _ => [.duplicate, .store]
+  | _ => []
+
+/-- tests of the literal sub-patterns, field `k` onwards, first instruction at template position `q` -/
+def testsFields : List Sub → Nat → Nat → List Instr
+  | [], _, _ => []
+  | .lit _ c :: r, k, q =>
+    [.duplicate, .get k, .constant c, .equal 2, .not, .jumpIf (-((q + 5 : Nat) : Int))] ++ testsFields r (k + 1) (q + 6)
+  | .bind _ :: r, k, q => testsFields r (k + 1) q
+  | .wild :: r, k, q => testsFields r (k + 1) q
+
+def bindsFields : List Sub → Nat → List Instr
+  | [], _ => []
+  | .bind _ :: r, k => [.duplicate, .get k, .store] ++ bindsFields r (k + 1)
+  | .lit _ _ :: r, k => bindsFields r (k + 1)
+  | .wild :: r, k => bindsFields r (k + 1)
+
+def nilFill : Nat → List Instr
+  | 0 => []
+  | n + 1 => [.tuple 0, .store] ++ nilFill n
+
+def matchCode (tests binds : List Instr) (nb : Nat) : List Instr :=
+  [.jump 1, .jump ((tests.length + binds.length + 3 : Nat) : Int)] ++ (tests ++ (binds ++
+    ([.pop, .tuple 1, .jump ((2 * nb + 2 : Nat) : Int)] ++ (nilFill nb ++ [.pop, .tuple 0]))))
+
+def compilePat : Pat1 → List Instr
+  | .top s => matchCode (testTop s 2) (bindTop s) (subBinds s).length
+  | .tup subs => matchCode (testsFields subs 0 2) (bindsFields subs 0) (subsBinds subs).length
 
 mutual
   /-- code and the compile-time locals afterwards -/
@@ -63,7 +136,7 @@ mutual
       let r := compileFs Γ fs 0
       (r.1 ++ [.tuple id, .rotate 2, .pop], r.2)
     | .var x => ([.pop, .load ((slot Γ x).getD 0)], Γ)
-    | .bind x => (bindCode, Γ ++ [x])
+    | .mtch p => (compilePat p, Γ ++ patBinds p)
   def compileCh (Γ : List String) : Ch1 → List Instr × List String
     | .nil => ([], Γ)
     | .cons t r =>
@@ -83,64 +156,103 @@ def compileSq (Γ : List String) : Sq1 → List Instr × List String
   | .cons c r =>
     let a := compileCh Γ c
     let b := compileSq a.2 r
-    (a.1 ++ [.duplicate, .not, .jumpIf b.1.length] ++ b.1, b.2)
+    (a.1 ++ [.duplicate, .not, .jumpIf (b.1.length : Int)] ++ b.1, b.2)
 
-/-! ### Meaning: value, names and values of the locals afterwards -/
+/-! ### Meaning: the value and the frame's locals afterwards -/
 
-structure Out where
-  val : Val
-  names : List String
-  locals : List Val
+def subPasses (v : Val) : Sub → Bool
+  | .lit z _ => decide (v = .int z)
+  | _ => true
+
+def subBound (v : Val) : Sub → List Val
+  | .bind _ => [v]
+  | _ => []
+
+/-- do all literal sub-patterns accept their fields? (`none`: a field is missing) -/
+def fieldsPass : List Sub → List Val → Option Bool
+  | [], [] => some true
+  | s :: r, v :: vs => (fieldsPass r vs).map (fun b => subPasses v s && b)
+  | _, _ => none
+
+def fieldsBound : List Sub → List Val → List Val
+  | s :: r, v :: vs => subBound v s ++ fieldsBound r vs
+  | _, _ => []
+
+/-- the verdict and the values stored (one per binder, in order; nil for each on failure) -/
+def evalPat (flow : Val) : Pat1 → Option (Val × List Val)
+  | .top s =>
+    if subPasses flow s then some (Val.ok, subBound flow s)
+    else some (Val.nil, List.replicate (subBinds s).length Val.nil)
+  | .tup subs =>
+    match flow with
+    | .tup _ els =>
+      match fieldsPass subs els.toList with
+      | some true => some (Val.ok, fieldsBound subs els.toList)
+      | some false => some (Val.nil, List.replicate (subsBinds subs).length Val.nil)
+      | none => none
+    | _ => none
 
 mutual
-  def evalT (Γ : List String) (L : List Val) (flow : Val) : T1 → Out
-    | .int z _ => ⟨.int z, Γ, L⟩
-    | .ripple => ⟨flow, Γ, L⟩
-    | .tup id fs =>
-      let r := evalFs Γ L flow fs
-      ⟨.tup id (ValList.ofList r.1), r.2.1, r.2.2⟩
-    | .var x => ⟨(L[(slot Γ x).getD 0]?).getD Val.nil, Γ, L⟩
-    -- "A bare binder always succeeds"; the verdict is `Ok`; the binding takes the next slot
-    | .bind x => ⟨Val.ok, Γ ++ [x], L ++ [flow]⟩
-  def evalCh (Γ : List String) (L : List Val) (flow : Val) : Ch1 → Out
-    | .nil => ⟨flow, Γ, L⟩
-    | .cons t r =>
-      let a := evalT Γ L flow t
-      evalCh a.names a.locals a.val r
+  def evalT (Γ : List String) (L : List Val) (flow : Val) : T1 → Option (Val × List Val)
+    | .int z _ => some (.int z, L)
+    | .ripple => some (flow, L)
+    | .tup id fs => (evalFs Γ L flow fs).map fun r => (.tup id (ValList.ofList r.1), r.2)
+    | .var x => (slot Γ x).bind fun i => (L[i]?).map fun v => (v, L)
+    | .mtch p => (evalPat flow p).map fun r => (r.1, L ++ r.2)
+  def evalCh (Γ : List String) (L : List Val) (flow : Val) : Ch1 → Option (Val × List Val)
+    | .nil => some (flow, L)
+    | .cons t r => (evalT Γ L flow t).bind fun a => evalCh (compileT Γ t).2 a.2 a.1 r
   /-- every field starts from `flow`; bindings made in a field persist -/
-  def evalFs (Γ : List String) (L : List Val) (flow : Val) : Fs1 → List Val × List String × List Val
-    | .nil => ([], Γ, L)
+  def evalFs (Γ : List String) (L : List Val) (flow : Val) : Fs1 → Option (List Val × List Val)
+    | .nil => some ([], L)
     | .cons c r =>
-      let a := evalCh Γ L flow c
-      let b := evalFs a.names a.locals flow r
-      (a.val :: b.1, b.2.1, b.2.2)
+      (evalCh Γ L flow c).bind fun a =>
+        (evalFs (compileCh Γ c).2 a.2 flow r).map fun b => (a.1 :: b.1, b.2)
 end
 
-def evalSq (Γ : List String) (L : List Val) (flow : Val) : Sq1 → Out
+/-- the nil short-circuit: the remaining steps are skipped — and so are their Stores: after a nil step
+the locals are NOT aligned with the sequence's compile-time `Γ` any more (that is why every enclosing
+scope ends in a `Reset`) -/
+def evalSq (Γ : List String) (L : List Val) (flow : Val) : Sq1 → Option (Val × List Val)
   | .last c => evalCh Γ L flow c
   | .cons c r =>
-    let a := evalCh Γ L flow c
-    if a.val.isNil then a else evalSq a.names a.locals a.val r
+    (evalCh Γ L flow c).bind fun a =>
+      if a.1.isNil then some a else evalSq (compileCh Γ c).2 a.2 a.1 r
 
-/-! ### Well-formedness: tables as the term says, variables bound -/
+/-! ### Well-formedness: the program tables say what the term says -/
+
+def wfSub (P : Prog) : Sub → Prop
+  | .lit z i => P.constants[i]? = some (.int z)
+  | _ => True
+
+def wfSubs (P : Prog) : List Sub → Prop
+  | [] => True
+  | s :: r => wfSub P s ∧ wfSubs P r
+
+def wfPat (P : Prog) : Pat1 → Prop
+  | .top s => wfSub P s
+  | .tup subs => wfSubs P subs
+
+/-- `types::NIL = 0`, `types::OK = 1`, both field-less -/
+def wfProg (P : Prog) : Prop := P.tuples[0]? = some 0 ∧ P.tuples[1]? = some 0
 
 mutual
-  def wfT (P : Prog) (Γ : List String) : T1 → Prop
+  def wfT (P : Prog) : T1 → Prop
     | .int z i => P.constants[i]? = some (.int z)
     | .ripple => True
-    | .tup id fs => P.tuples[id]? = some fs.length ∧ wfFs P Γ fs
-    | .var x => (slot Γ x).isSome
-    | .bind _ => True
-  def wfCh (P : Prog) (Γ : List String) : Ch1 → Prop
+    | .tup id fs => P.tuples[id]? = some fs.length ∧ wfFs P fs
+    | .var _ => True
+    | .mtch p => wfPat P p
+  def wfCh (P : Prog) : Ch1 → Prop
     | .nil => True
-    | .cons t r => wfT P Γ t ∧ wfCh P (compileT Γ t).2 r
-  def wfFs (P : Prog) (Γ : List String) : Fs1 → Prop
+    | .cons t r => wfT P t ∧ wfCh P r
+  def wfFs (P : Prog) : Fs1 → Prop
     | .nil => True
-    | .cons c r => wfCh P Γ c ∧ wfFs P (compileCh Γ c).2 r
+    | .cons c r => wfCh P c ∧ wfFs P r
 end
 
-def wfSq (P : Prog) (Γ : List String) : Sq1 → Prop
-  | .last c => wfCh P Γ c
-  | .cons c r => wfCh P Γ c ∧ wfSq P (compileCh Γ c).2 r
+def wfSq (P : Prog) : Sq1 → Prop
+  | .last c => wfCh P c
+  | .cons c r => wfCh P c ∧ wfSq P r
 
 end QM.RefSem.C1
